@@ -4,6 +4,7 @@ import (
 	"bytes"
 	"encoding/json"
 	"fmt"
+	"os"
 	"strconv"
 	"strings"
 	"unicode/utf16"
@@ -64,6 +65,13 @@ func applyFault(d, spec string) string {
 			return "\xe9" + d
 		}
 		return d[:i+1] + "caf\xe9" + d[i+1:]
+	case "file":
+		// misdirected read: the path resolved to another (non JSON-LD) file
+		b, err := os.ReadFile(strings.Join(parts[1:], ":"))
+		if err != nil {
+			panic("fault file: " + err.Error())
+		}
+		return string(b)
 	case "ld":
 		k := 0
 		if len(parts) > 2 {
